@@ -308,11 +308,13 @@ impl<'i> VariableValidator<'i> {
     // canon doesn't check stream to be defined, because empty streams are considered to be empty
     // and it is useful for code generation
     pub(super) fn met_canon(&mut self, canon: &Canon<'i>, span: Span) {
+        self.met_peer_id_resolvable_value(&canon.peer_id, span);
         self.met_variable_name_definition(canon.canon_stream.name, span);
         self.met_simple_instr(span);
     }
 
     pub(super) fn met_canon_map(&mut self, canon_map: &CanonMap<'i>, span: Span) {
+        self.met_peer_id_resolvable_value(&canon_map.peer_id, span);
         self.met_variable_name_definition(canon_map.canon_stream_map.name, span);
         self.met_simple_instr(span);
     }
@@ -322,6 +324,7 @@ impl<'i> VariableValidator<'i> {
         canon_stream_map_scalar: &CanonStreamMapScalar<'i>,
         span: Span,
     ) {
+        self.met_peer_id_resolvable_value(&canon_stream_map_scalar.peer_id, span);
         self.met_variable_name_definition(canon_stream_map_scalar.scalar.name, span);
 
         self.met_simple_instr(span);
@@ -395,16 +398,22 @@ impl<'i> VariableValidator<'i> {
     }
 
     pub(super) fn met_ap(&mut self, ap: &Ap<'i>, span: Span) {
-        match &ap.argument {
+        self.met_ap_argument(&ap.argument, span);
+        self.met_variable_name_definition(ap.result.name(), span);
+        self.met_simple_instr(span);
+    }
+
+    fn met_ap_argument(&mut self, argument: &ApArgument<'i>, span: Span) {
+        match argument {
             ApArgument::Number(_)
             | ApArgument::Timestamp
             | ApArgument::TTL
             | ApArgument::InitPeerId
             | ApArgument::Boolean(_)
             | ApArgument::Literal(_)
-            | ApArgument::EmptyArray
-            | ApArgument::LastError(_) => {}
-            ApArgument::Error(_) => {}
+            | ApArgument::EmptyArray => {}
+            ApArgument::LastError(lambda) => self.met_optional_lambda(lambda, span),
+            ApArgument::Error(error) => self.met_optional_lambda(&error.lens, span),
             ApArgument::Scalar(scalar) => self.met_scalar(scalar, span),
             ApArgument::ScalarWithLambda(scalar) => self.met_scalar_wl(scalar, span),
             ApArgument::CanonStream(canon_stream) => self.met_canon_stream(canon_stream, span),
@@ -418,13 +427,12 @@ impl<'i> VariableValidator<'i> {
                 self.met_canon_stream_map_wl(canon_stream_map, span)
             }
         }
-        self.met_variable_name_definition(ap.result.name(), span);
-        self.met_simple_instr(span);
     }
 
     pub(super) fn met_ap_map(&mut self, ap_map: &ApMap<'i>, span: Span) {
         let key = &ap_map.key;
         self.met_map_key(key, span);
+        self.met_ap_argument(&ap_map.value, span);
         self.met_variable_name_definition(ap_map.map.name, span);
         self.met_simple_instr(span);
     }
@@ -557,8 +565,9 @@ impl<'i> VariableValidator<'i> {
         use ImmutableValue::*;
 
         match instr_arg_value {
-            InitPeerId | Error(_) | LastError(_) | Timestamp | TTL | Literal(_) | Number(_)
-            | Boolean(_) | EmptyArray => {}
+            InitPeerId | Timestamp | TTL | Literal(_) | Number(_) | Boolean(_) | EmptyArray => {}
+            LastError(lambda) => self.met_optional_lambda(lambda, span),
+            Error(error) => self.met_optional_lambda(&error.lens, span),
             Variable(variable) => self.met_variable(variable, span),
             VariableWithLambda(variable) => self.met_variable_wl(variable, span),
         }
@@ -603,6 +612,12 @@ impl<'i> VariableValidator<'i> {
     fn met_variable_name(&mut self, name: &'i str, span: Span) {
         if !self.contains_variable(name, span) {
             self.unresolved_variables.insert(name, span);
+        }
+    }
+
+    fn met_optional_lambda(&mut self, lambda: &Option<LambdaAST<'i>>, span: Span) {
+        if let Some(lambda) = lambda {
+            self.met_lambda(lambda, span);
         }
     }
 
@@ -662,9 +677,9 @@ impl<'i> VariableValidator<'i> {
             | ImmutableValue::Number(_)
             | ImmutableValue::Boolean(_)
             | ImmutableValue::Literal(_)
-            | ImmutableValue::Error(_)
-            | ImmutableValue::LastError(_)
             | ImmutableValue::EmptyArray => {}
+            ImmutableValue::LastError(lambda) => self.met_optional_lambda(lambda, span),
+            ImmutableValue::Error(error) => self.met_optional_lambda(&error.lens, span),
             ImmutableValue::Variable(variable) => self.met_variable(variable, span),
             ImmutableValue::VariableWithLambda(variable) => self.met_variable_wl(variable, span),
         }
@@ -699,7 +714,7 @@ impl<'i> ValidatorErrorBuilder<'i> {
 
     /// Check that all variables were defined.
     fn check_undefined_variables(mut self) -> Self {
-        for (name, span) in self.validator.unresolved_variables.iter() {
+        for (name, span) in self.validator.unresolved_variables.flat_iter() {
             if !self.validator.contains_variable(name, *span) {
                 let error = ParserError::undefined_variable(*span, *name);
                 add_to_errors(&mut self.errors, *span, Token::Call, error);
